@@ -92,6 +92,26 @@ def gen_cases(rng, tier):
                 s["penalty"] = rng.choice([None, 0])
         dtwgen.derived(case)
         cases.append(case)
+    # Pruned start column against the band, when the two-row buffer spans all columns (wide window): the start
+    # column sc (>= 1 after row 1, whose first cell exceeds the bound) must not pull the first computed column LEFT
+    # of the band in later rows; the cells one step outside the band are made attractive (series 1 = series 2
+    # delayed by exactly `window` samples), so a kernel that computes them returns a smaller distance.
+    m = 240 if tier == "quick" else 2400
+    for k in range(m):
+        p = rng.randint(1, 2)
+        w = p + 2 + rng.choice([0, 0, 1])
+        a = rng.randint(-1, 1)
+        J = a + rng.choice([3, -3, 4])
+        P = [J + rng.choice([2, -2, 3]) * (q + 1) for q in range(p)]
+        s1 = [a, J] + [J] * w + P
+        s2 = [a, J] + P + [P[-1]] * w
+        if rng.random() < 0.5:
+            s1[rng.randrange(2, len(s1))] += rng.choice([1, -1])
+        st = {"window": w, "penalty": None, "psi": None, "max_step": None, "max_length_diff": None,
+              "inner_dist": "squared euclidean", "max_dist": rng.randint(5, 8), "use_pruning": False}
+        case = {"site": ("c.distance", "py.distance", "c.wps", "py.wps")[k % 4], "ndim": 1, "s1": s1, "s2": s2,
+                "settings": st, "mode": "max_dist", "stream": "prune-left-of-band"}
+        cases.append(dtwgen.derived(case))
     return cases
 
 
